@@ -15,7 +15,9 @@ T = {
          "of threads, any retry limit and every interleaving: while a pause is acknowledged every background thread "
          "is in its wait section with no callback executing, the clock is frozen, and only resume()/shutdown() end "
          "the phase. Real launch() runs under a deterministic scheduler are replayed through the model (trace "
-         "refinement) and checked by an independent monitor.",
+         "refinement) and checked by an independent monitor. ControlThread.try_pause / save_state / resume / shutdown are "
+         "translated from the source on every run and proved never to leave the control graph of the model "
+         "(try_pause returns True only through cWorkersJoined true, cClockPause).",
          "Lean 4 invariant proof over a labelled transition system + trace-refinement correspondence", "§7.0-7.1", PROTO_NOTE),
  "C02": ("Safety invariants (shutdown implies resume set; no pause after shutdown; final save only after every thread "
          "exited with the clock running) and bounded-step progress (rank function strictly decreasing on every own "
@@ -24,20 +26,26 @@ T = {
          "deadlock among them; the launch epilogue never blocks; C02Term: from every reachable state there is a finite "
          "continuation after which launch() has returned - no reachable state is a trap); trace refinement of real launch() "
          "runs incl. timed mode, interrupts in the control loop and during start-up, deadlock detection; the fake threading primitives are enumerated over all schedules and "
-         "compared with real threading.",
+         "compared with real threading. ThreadController and the pause / resume / shutdown / save methods of ControlThread are "
+         "translated from the source on every run and tied to the model's control actions (shutdown sets resume before "
+         "shutdown; the translated methods never leave the control graph cut out of Proto.cstep, for every number of attempts "
+         "and every outcome of the waits).",
          "Lean 4 invariant + ranking-function proofs + trace-refinement correspondence", "§7.2", PROTO_NOTE),
  "C03": ("Fault at every callback kind and occurrence is a nondeterministic action of Pamiq.Proto: flag before teardown, "
          "teardown phase final, control loop forced to shutdown after seeing a flag or unwinding; the control loop body in "
          "source order (Pamiq.Tick: a tick stops the loop iff it found a cause, every tick reads every exception flag, the "
-         "tick that finds a raised flag is the last); trace refinement of real launch() runs with injected faults, every "
-         "control tick compared with the Tick model.",
+         "tick that finds a raised flag is the last); ControlThread.on_tick, its drain loop and shutdown() are translated from "
+         "the source on every run and proved equal to Pamiq.Tick.tick for every input; trace refinement of real launch() runs "
+         "with injected faults (incl. exceptions that cannot be formatted), every control tick compared with the Tick model.",
          "Lean 4 proofs over the protocol model + fault-injection correspondence", "§7.3", PROTO_NOTE),
  "C04": ("A runtime save occurs only under an acknowledged pause (so C01 applies for its whole duration), no step "
          "completes during it, resume afterwards iff not already paused; product model Pamiq.SysData (protocol x "
          "component values): while acknowledged the observable values are those of the acknowledgement instant, every "
          "value a runtime save writes is the value of that instant, nothing stays in transit, the saved data is everything "
          "collected; real traces (protocol + data events) are replayed through both models and the files of every save "
-         "are compared with the model's predicted snapshot and, independently, with the trace.",
+         "are compared with the model's predicted snapshot and, independently, with the trace. ControlThread.save_state is "
+         "translated from the source on every run: cSave, the pause attempt, the write only after it succeeded, resume exactly "
+         "when the system was not paused before (save_state_refines).",
          "Lean 4 invariant proofs over a product transition system + trace-refinement and snapshot correspondence", "§7.4", PROTO_NOTE),
  "C05": ("load_save / load_save_id: for every system, reader and fresh directory the real save order followed by load yields "
          "the saved observables (buffers incl. loading into smaller ones, arrival counts for every t, trainer markers over "
